@@ -131,7 +131,19 @@ def r04_3(run):
     run.ob("R04.3", loc(ip, ip.node), ip.short, "tracked _in_place_op returns nothing (callers keep using the same object)", ok,
            "no `return <tensor>` under TRACK_GRAPH=True" if ok else "a new tensor object is handed back for a public name")
     # every view child is re-created and mirrored, parents before children
-    loops = [n for n in own_nodes(ip.node) if isinstance(n, ast.For) and norm(n.iter) == "graph" and cfg.node_for(n) is not None]
+    dgc = run.project.cls(f"{DUP}.DuplicatingGraph")
+
+    def _iterates_graph(e):
+        """`graph`, or a DuplicatingGraph method applied to it whose items come from the DFS over the view family"""
+        if norm(e) == "graph":
+            return True
+        if isinstance(e, ast.Call) and isinstance(e.func, ast.Attribute) and norm(e.func.value) == "graph":
+            m = dgc.lookup_method(e.func.attr)
+            return m is not None and any(isinstance(c, ast.Call) and isinstance(c.func, ast.Attribute) and c.func.attr in ("_yield_children", "__iter__", "iter_nodes")
+                                         for c in own_nodes(m.node)) and any(isinstance(y, (ast.Yield, ast.YieldFrom, ast.Return)) for y in own_nodes(m.node))
+        return False
+
+    loops = [n for n in own_nodes(ip.node) if isinstance(n, ast.For) and _iterates_graph(n.iter) and cfg.node_for(n) is not None]
     ok = False
     for lp in loops:
         rp = [c for c in calls_named(lp, "_replay_op") if norm(c.func.value) == f"{lp.target.id}.tensor" and c.args and norm(c.args[0]) == f"{lp.target.id}.parent"]
@@ -148,6 +160,25 @@ def r04_3(run):
     fr = [n for n in own_nodes(it.node) if isinstance(n, ast.YieldFrom)]
     cfgy = build_cfg(run, it)
     ok = bool(ys) and bool(fr) and all(cfgy.dominates(cfgy.stmt_node_containing(y), cfgy.stmt_node_containing(f)) for y in ys for f in fr)
+    if not fr and ys:
+        # explicit-stack form of the same traversal: the children of X are scheduled (`<stack>.append(iter(X._view_children))`) only after
+        # X itself was yielded -- in the loop body for every descendant, before the loop for the root
+        sched = []
+        for c in own_nodes(it.node):
+            if isinstance(c, ast.Call) and isinstance(c.func, ast.Attribute) and c.func.attr in ("append", "extend", "appendleft", "push") and c.args:
+                xs = [x.value.id for x in ast.walk(c.args[0]) if isinstance(x, ast.Attribute) and x.attr == "_view_children" and isinstance(x.value, ast.Name)]
+                if xs:
+                    sched.append((c, xs[0]))
+        if not sched:
+            raise AnalysisError(f"{it.short}: neither a recursive (`yield from`) nor an explicit-stack traversal of the view children was recognised")
+        root = it.node.args.args[1].arg if len(it.node.args.args) > 1 else None
+        ok = True
+        for c, x in sched:
+            yx = [y for y in ys if y.value is not None and x in {n_.id for n_ in ast.walk(y.value) if isinstance(n_, ast.Name)}]
+            ok = ok and bool(yx) and any(cfgy.dominates(cfgy.stmt_node_containing(y), cfgy.stmt_node_containing(c)) for y in yx)
+        seeds = [n for n in own_nodes(it.node) if isinstance(n, ast.Assign) and root is not None and f"{root}._view_children" in norm(n.value)]
+        yr = [y for y in ys if y.value is not None and root in {n_.id for n_ in ast.walk(y.value) if isinstance(n_, ast.Name)}] if root else []
+        ok = ok and (not seeds or (bool(yr) and all(cfgy.dominates(cfgy.stmt_node_containing(yr[0]), cfgy.node_for(sd)) for sd in seeds)))
     run.ob("R04.3", loc(it, it.node), it.short, "graph iteration yields a parent before its children (pre-order)", ok,
            "`yield self[tensor]` dominates the recursion over its view children" if ok else "a child could be replayed on a parent that was not updated yet")
 
